@@ -8,8 +8,9 @@ MANIFEST = dict(
    note="Trusted: Lean kernel; axioms propext/Classical.choice/Quot.sound only; the Go harness, hex line protocol and comparer; the go/ast translator (source text only). The model is a hand transcription validated on generated cases. Issue.msg stands for mapper(issue): the default formatter's text is taken from the library, custom mappers/formatters are computed by the harness. Paths are string keys and non-negative ints; other element types, negative ints and a nil *ZodError are outside the model. FormatError's reserved key \"_errors\" is an open known finding for the placement only (since cef00ff no message is lost; the placement cannot be repaired within the report shape).",
    design="DESIGN.md §5 C19; notes/C19.md")
 
-MODULES = ["Gozod.Proofs.C19", "Gozod.Proofs.C19Dot", "Gozod.Proofs.C19Exports", "Gozod.Proofs.C19Go", "Gozod.Proofs.C19Parse"]
+MODULES = ["Gozod.Proofs.C19", "Gozod.Proofs.C19Dot", "Gozod.Proofs.C19Exports", "Gozod.Proofs.C19Go", "Gozod.Proofs.C19Parse", "Gozod.Proofs.C19PathTypes"]
 GEN = os.path.join(C.LEAN, "Gozod", "Gen", "C19Exports.lean")
+GEN_PATHS = os.path.join(C.LEAN, "Gozod", "Gen", "C19PathTypes.lean")
 THEOREMS = ["Gozod.C19." + t for t in [
     "c19_flatten_count", "c19_flatten_form", "c19_flatten_field", "c19_flatten_place",
     "c19_tree_count", "c19_tree_place",
@@ -28,12 +29,15 @@ THEOREMS = ["Gozod.C19." + t for t in [
     "El.render_pos", "flattenGo_eq", "formatGo_eq", "treeifyGo_eq",
     "c19_go_flatten_count", "c19_go_format_count", "c19_go_tree_count", "c19_go_tree_place", "c19_go_nonempty",
     "c19_go_never_panics", "reportsCfg_fixed", "treeifyCfg_fixed", "treeifyCfg_head",
-    "treeInsertCur_eq_dropOther", "treeInsertCur_plain", "treeInsertCur_none_iff", "c19_cur_tree_partial",
-    "cur_tree_panics_negative", "cur_tree_misfiles_other", "c19_cur_tree_full_false", "cur_nil_panics",
+    "treeInsertOld_eq_dropOther", "treeInsertOld_plain", "treeInsertOld_none_iff", "c19_old_tree_partial",
+    "old_tree_panics_negative", "old_tree_misfiles_other", "c19_old_tree_full_false", "old_nil_panics",
     # the dot notation as a grammar (Proofs/C19Parse.lean)
     "unesc_esc", "parseSegs_seg", "c19_parse_dotpath_go", "c19_parse_dotpath", "c19_dotpath_go_injective",
-    "c19_dotpath_typed_injective", "c19_dotpath_esc_injective'", "cur_dotpath_other_conflates",
-    "dotPathCur_typed", "c19_cur_dotpath_partial", "c19_cur_dotpath_full_false",
+    "c19_dotpath_typed_injective", "c19_dotpath_esc_injective'", "old_dotpath_other_conflates",
+    "dotPathOld_typed", "c19_old_dotpath_partial", "c19_old_dotpath_full_false",
+    "leafCount_pos", "c19_format_accounts_every_issue",
+    # the Go types the library itself puts into paths, over the table regenerated with go/types (Proofs/C19PathTypes.lean)
+    "c19_path_types_covered", "c19_el_needed", "c19_path_types_any_sources", "c19_path_types_typed_present",
 ]]
 
 PARTS = ("flat", "tree", "fmt", "pretty")
@@ -153,9 +157,9 @@ def run(res):
     env = C.goenv(); env["VERIF_REPO"] = C.REPO
     tmp = os.path.join(C.BUILD, "run", "C19-gen-%d" % os.getpid()); os.makedirs(tmp, exist_ok=True)
     with C.Lock("c19gen"):
-        rc, out = C.run([C.harness_bin("C19"), "-out", tmp, "-gen", GEN], env=env, timeout=600)
+        rc, out = C.run([C.harness_bin("C19"), "-out", tmp, "-gen", GEN, "-genpaths", GEN_PATHS], env=env, timeout=900)
     if rc != 0:
-        C.tie_broken(res, "translator C19 (gozod.go, internal/issues/errors.go -> Gen/C19Exports.lean)", out[-3000:])
+        C.tie_broken(res, "translator C19 (gozod.go, internal/issues/errors.go -> Gen/C19Exports.lean; go/types over core, internal/checks, internal/engine, internal/issues, types -> Gen/C19PathTypes.lean)", out[-3000:])
     ok, detail = C.prove(res, MODULES, THEOREMS)
     if not ok:
         C.tie_broken(res, "proof Gozod.Proofs.C19 / C19Dot / C19Exports (the latter is over the table regenerated from gozod.go and errors.go)", detail)
